@@ -123,6 +123,7 @@ Section Final.
     - apply ref_ESectionTyped; auto.
     - apply ref_RefetchDwarf; auto.
     - apply ref_DIEAtOutside; auto.
+    - apply ref_LineEntriesFailing; auto.
     - apply ref_CUAtFailing; auto.
   Qed.
 
